@@ -67,6 +67,9 @@ func (ex *Exec) unknownResult(sig *types.Signature, name string, taint uint64) V
 func (ex *Exec) invoke(fr *Frame, st *State, t *ssa.Call, recv Val, m *types.Func, args []Val) Val {
 	ifaceName := types.TypeString(t.Common().Value.Type(), nil)
 	key := "(" + ifaceName + ")." + m.Name()
+	if ex.Cfg.CallFilter != nil && ex.Cfg.CallFilter(key) {
+		ex.event(Event{Kind: EvCall, Pos: t.Pos(), Callee: key, Args: args, ArgTaint: ex.DeepTaint(st, args)})
+	}
 	if i, ok := recv.(*Iface); ok {
 		if i.Opaque == nil && i.Dyn != nil {
 			// external abstract objects (hash states) dispatch on the interface method
@@ -95,7 +98,7 @@ func (ex *Exec) callFn(fr *Frame, st *State, fn *ssa.Function, args []Val, free 
 		pos = site.Pos()
 	}
 	if ex.Cfg.CallFilter != nil && ex.Cfg.CallFilter(name) {
-		ex.event(Event{Kind: EvCall, Pos: pos, Callee: name, Args: args})
+		ex.event(Event{Kind: EvCall, Pos: pos, Callee: name, Args: args, ArgTaint: ex.DeepTaint(st, args)})
 	}
 	if ic, ok := ex.Cfg.Intercepts[name]; ok {
 		ctx := &CallCtx{St: st, Fn: fn, Name: name, Args: args, Instr: site, Frame: fr, Pos: pos}
@@ -163,7 +166,7 @@ func (ex *Exec) external(fr *Frame, st *State, site ssa.CallInstruction, fn *ssa
 			return v
 		}
 	}
-	ex.event(Event{Kind: EvUnmodelled, Pos: pos, Callee: name, Args: args})
+	ex.event(Event{Kind: EvUnmodelled, Pos: pos, Callee: name, Args: args, ArgTaint: ex.DeepTaint(st, args)})
 	// conservatively forget everything reachable through pointer arguments
 	taint := argsTaint(args)
 	for _, a := range args {
